@@ -39,7 +39,7 @@ NOW_OFF = 1_700_000_007_654_321
 
 HEADER = ("From Coq Require Import List ZArith NArith Bool.\nFrom Arc Require Import MsgPack.Model.\n"
           "Import ListNotations.\nOpen Scope Z_scope.\n")
-PRED_BITS = [("agree", 1), ("oracle", 2), ("notdup", 4), ("notskip", 8), ("modelsame", 16)]
+PRED_BITS = [("agree", 1), ("oracle", 2), ("notdup", 4), ("notskip", 8), ("modelsame", 16), ("offagree", 32)]
 
 
 # ---------------------------------------------------------------------------------------
@@ -106,11 +106,11 @@ def rjunk(rng, depth=0):
     r = rng.random()
     if depth > 2 or r < 0.45:
         return rscalar(rng)
-    if r < 0.6:
+    if r < 0.62:
         return ("arr", [rjunk(rng, depth + 1) for _ in range(rng.randint(0, 3))])
-    if r < 0.72:
+    if r < 0.82:
         return ("map", [(rstr(rng), rjunk(rng, depth + 1)) for _ in range(rng.randint(0, 3))])
-    if r < 0.9:
+    if r < 0.93:
         # maps with non-string / mixed keys
         n = rng.randint(1, 3)
         keys = [rng.choice([rint(rng), rf64(rng), rf32(rng), ("bool", True), NIL, ("bin", b"k"), rstr(rng), A(), ("map", []),
@@ -127,9 +127,9 @@ def rtime_elem(rng):
                         10 ** 10 - 1, 10 ** 10, 10 ** 13 - 1, 10 ** 13, 10 ** 16 - 1, 10 ** 16, 0, -1, -5, 2 ** 63 - 1, -2 ** 63, 2 ** 63, 2 ** 64 - 1,
                         9_223_372_036_854, 9_223_372_036_855, 9_223_372_036_854_775_807 // 1000])
         return rint(rng, z)
-    if r < 0.8:
+    if r < 0.84:
         return rf64(rng)
-    if r < 0.87:
+    if r < 0.95:
         return rf32(rng)
     return rscalar(rng)
 
@@ -149,12 +149,31 @@ def rcolumn(rng, n, name):
                 col[0] = base
             return col
         return [rtime_elem(rng) for _ in range(n)]
-    cls = rng.choice(["int", "int", "f64", "f32", "str", "bool", "nil", "mixed"])
+    cls = rng.choice(["int", "int", "int", "f64", "f64", "f32", "str", "str", "bool", "nil", "mixed", "intf", "intf", "fint"])
+    if cls in ("intf", "fint"):
+        # coercion tables: an int column holding floats (toInt64 bounds / truncation) or a float column holding ints
+        bound = [F64(2.0 ** 63), F64(-2.0 ** 63), F64(2.0 ** 63 * (1 + 2.0 ** -52)), F64(-2.0 ** 63 * (1 + 2.0 ** -52)),
+                 F64(2.0 ** 63 * (1 - 2.0 ** -53)), F32(2.0 ** 63), F32(-2.0 ** 63), F32(2.0 ** 63 * (1 + 2.0 ** -23)),
+                 F32(2.0 ** 63 * (1 - 2.0 ** -24)), F64(1.5), F64(-1.5), F32(2.5), F64(float("nan")), F64(1e19), F64(3.0), F64(-0.0)]
+        first = rint(rng, rng.randint(-5, 5)) if cls == "intf" else rng.choice([F64(1.5), F32(0.5)])
+        col = [first]
+        for _ in range(n - 1):
+            r = rng.random()
+            if r < 0.15:
+                col.append(NIL)
+            elif cls == "intf":
+                col.append(rng.choice(bound) if r < 0.8 else rint(rng))
+            else:
+                col.append(rint(rng) if r < 0.8 else rng.choice(bound))
+        if rng.random() < 0.3:
+            col.insert(0, NIL)
+            col.pop()
+        return col[:n]
     gen = {"int": rint, "f64": rf64, "f32": rf32, "str": rstr, "bool": lambda r: ("bool", r.random() < 0.5),
            "nil": lambda r: NIL, "mixed": rscalar}[cls]
     col = []
     pn = rng.choice([0, 0, 0.3, 0.6])
-    pf = rng.choice([0, 0, 0, 0.25])
+    pf = rng.choice([0, 0, 0, 0, 0, 0.2])
     for _ in range(n):
         r = rng.random()
         if r < pn:
@@ -168,9 +187,9 @@ def rcolumn(rng, n, name):
 
 def rmeasurement(rng):
     r = rng.random()
-    if r < 0.7:
+    if r < 0.75:
         return ("str", rng.choice(MEAS))
-    if r < 0.85:
+    if r < 0.92:
         return rint(rng)
     return rjunk(rng, 2)
 
@@ -193,8 +212,8 @@ def gen_columnar(rng):
     cols = []
     for name in names:
         r = rng.random()
-        if r < 0.82:
-            ln = n if rng.random() < 0.93 else rng.choice([0, n + 1, max(0, n - 1)])
+        if r < 0.88:
+            ln = n if rng.random() < 0.96 else rng.choice([0, n + 1, max(0, n - 1)])
             v = ("arr", rcolumn(rng, ln, name))
         else:
             v = rng.choice([rint(rng), rstr(rng), NIL, rjunk(rng, 1), ("ext", 5, b"ab"), ("ext", -1, b"\0\0\0\1"), ("bin", b"zz"), ("map", [])])
@@ -440,12 +459,14 @@ def mk_input(i, ast, data=None, now_on=NOW_ON, now_off=NOW_OFF):
     return {"id": i, "hex": data.hex(), "now_on": now_on, "now_off": now_off, "strs": [s.hex() for s in strs]}
 
 
-def check_cases(terms, name, chunk=160, workers=None):
+def check_cases(terms, name, chunk=None, workers=None):
     """Evaluate Model.case_flags on every case term inside coqc (vm_compute); chunks run in
     parallel processes because elaborating the case terms, not computing, dominates.
     -> {pred: set of indices where the predicate is FALSE}"""
     from concurrent.futures import ThreadPoolExecutor
-    workers = workers or max(2, min(12, vlib.NCPU - 2))
+    workers = workers or max(2, min(8, vlib.NCPU // 2))
+    # one round of `workers` chunks: every coqc pays a fixed cost for loading the libraries
+    chunk = chunk or min(1500, max(60, -(-len(terms) // workers)))
     chunks = [(off, terms[off:off + chunk]) for off in range(0, len(terms), chunk)]
 
     def one(job):
@@ -591,17 +612,7 @@ def run(res, tier, seed):
         res.stage("anchor_check", t0)
     res.cov["params"] = anchor
 
-    failed = vlib.std_proof_stage(res, "C02", AREA, MODULES, THEOREMS)
-    res.cov["trusted_base"] += [
-        "byte -> AST parse of the Basekick-Labs/msgpack v6 fork is the same function for Unmarshal and for the streaming Decoder calls of the typed path (oracle; supported by the byte-mutation stream: typed-on = typed-off on mutated encodings)",
-        "float semantics and SanitizeUTF8 are parameters (record ops) of every theorem; the correspondence instantiates them with Model.go_ops (IEEE-754 bit-level functions, amd64 conversion results) and the SanitizeUTF8 images observed on the Go side",
-        "int64(float32 x) = int64(float64(x)) and the float32 bound test of toInt64 equals the float64 test on the widened value (IEEE: widening is exact, float32(MaxInt64) = 2^63)",
-        "time.Now is a parameter (separate clocks for the two runs); ArrowBuffer.Write after the typing chokepoint is the same code for both record types (buffering, WAL raw payload), not modelled here",
-        "row-format tag values formatted with fmt %v of floats/bin/nested values are not predicted by the model (compared as wildcard); rowsToColumnar of row records is outside this model (same code in both modes)",
-        "decimal-column deployments never take the typed path (anchor check on NewMsgPackHandler each run)",
-    ]
-
-    nstruct, nmut = (2600, 700) if tier == "quick" else (60000, 15000)
+    nstruct, nmut = (2200, 600) if tier == "quick" else (40000, 10000)
     t1 = time.time()
     wit = witnesses()
     asts, labels = list(wit.values()), list(wit.keys())
@@ -631,8 +642,34 @@ def run(res, tier, seed):
         mut_inputs.append((a, inp))
         mut_kinds.append(kind)
     all_inputs = inputs + [i for _, i in mut_inputs]
-    out = run_impl(all_inputs, tier)
-    res.stage("impl_harness", t1)
+    # the Go harness runs while the Coq development is built and its assumptions are printed
+    import threading
+    box = {}
+
+    def _harness():
+        try:
+            box["out"] = run_impl(all_inputs, tier)
+        except BaseException as e:      # re-raised in the main thread
+            box["err"] = e
+        box["wall"] = time.time() - t1
+
+    th = threading.Thread(target=_harness)
+    th.start()
+    failed = vlib.std_proof_stage(res, "C02", AREA, MODULES, THEOREMS)
+    res.cov["trusted_base"] += [
+        "byte -> AST parse of the Basekick-Labs/msgpack v6 fork is the same function for Unmarshal and for the streaming Decoder calls of the typed path (oracle; supported by the byte-mutation stream: typed-on = typed-off on mutated encodings)",
+        "float semantics and SanitizeUTF8 are parameters (record ops) of every theorem; the correspondence instantiates them with Model.go_ops (IEEE-754 bit-level functions, amd64 conversion results) and the SanitizeUTF8 images observed on the Go side",
+        "int64(float32 x) = int64(float64(x)) and the float32 bound test of toInt64 equals the float64 test on the widened value (IEEE: widening is exact, float32(MaxInt64) = 2^63)",
+        "time.Now is a parameter (separate clocks for the two runs); ArrowBuffer.Write after the typing chokepoint is the same code for both record types (buffering, WAL raw payload), not modelled here",
+        "row-format tag values formatted with fmt %v of floats/bin/nested values are not predicted by the model (compared as wildcard); rowsToColumnar of row records is outside this model (same code in both modes)",
+        "decimal-column deployments never take the typed path (anchor check on NewMsgPackHandler each run)",
+    ]
+
+    th.join()
+    res.stages["impl_harness"] = round(box.get("wall", 0.0), 2)
+    if "err" in box:
+        raise box["err"]
+    out = box["out"]
 
     t2 = time.time()
     sres, mres = out[:len(inputs)], out[len(inputs):]
@@ -658,10 +695,14 @@ def run(res, tier, seed):
 
     known = vlib.known_for("C02")
     known_sigs = {e["signature"]: e for e in known}
-    dis = sorted(fails["agree"])
     orf = sorted(fails["oracle"])
     in_dup = fails["notdup"]
     in_skip = fails["notskip"]
+    # a known finding that was FIXED in the code: inside an excluded class the implementation no longer
+    # differs between the modes and both runs equal the generic model -> not a disagreement (DESIGN.md section 4)
+    fixed_cases = {i for i in fails["agree"] if (i in in_dup or i in in_skip) and i not in fails["oracle"]
+                   and i not in fails["offagree"]}
+    dis = sorted(fails["agree"] - fixed_cases)
     model_diff = fails["modelsame"]
 
     res.cov["evaluations"] = len(all_inputs)
@@ -738,6 +779,7 @@ def run(res, tier, seed):
                       {"kind": "oracle-bytes", "hex": inp["hex"], "observed": r, "mutation": kind,
                        "how_to_replay": "python3 tools/check.py C02 --replay <this file>"}, suffix="bytes")
     # the model predicts a difference exactly where the implementation shows one (inside the classes)
+    res.cov["known_class_cases_now_equal_in_both_modes"] = len(fixed_cases)
     res.cov["model_predicts_difference"] = len(model_diff)
     res.cov["impl_shows_difference"] = len(orf)
 
